@@ -302,6 +302,8 @@ func (c *Cluster) PingNode(host string) (bool, error) {
 	if err != nil {
 		return false, err
 	}
+	// the probe handle is not kept: release its connection pool
+	defer func() { _ = node.Close() }()
 	ok, err := node.Ping()
 	if err != nil && IsErrorDubious(err) {
 		return false, err
